@@ -247,6 +247,16 @@ def check_N3(ctx, facts):
                 ne_edge = c.get('true_edge') if c['rel'] == '!=' else c.get('false_edge')
                 if ne_edge is not None and g.edge_dominates(ne_edge, b):
                     ok_g = True
+            if not ok_g and v is not None:
+                # the pushed address is drawn (`next`) from an iterator whose type carries the Filter(item != local_node) adaptor
+                for nb, nt in calls:
+                    if cname(nt) != 'core::iter::traits::iterator::Iterator::next' or nt['dest']['l'] not in vb:
+                        continue
+                    it_ty = g.local_ty(op_local(nt['args'][0]))
+                    cls_ = re.findall(r'\{closure@[^}]*\}', it_ty)
+                    if 'filter::Filter<' in it_ty and any(c in by_ty and is_local_node_filter(*by_ty[c]) for c in cls_) \
+                            and it_ty.count('filter::Filter<') >= 1 and not re.search(r'adapters::(chain::Chain|flatten::)', it_ty):
+                        ok_g = True
             guarded[(b, id(t))] = ok_g
         roots_ok = set()
         for _round in range(3):
